@@ -145,7 +145,7 @@ def run_property(pid, tier, seed, only=None):
     t0 = time.time()
     mod = importlib.import_module("contracts." + pid.lower())
     timeout_ms = 10000 if tier == "quick" else 60000
-    out = {"pid": pid, "tier": tier}
+    out = {"pid": pid, "tier": tier, "only": only}
     # ------------------------------------------------ P: SMT obligations
     jobs = []
     for i, c in enumerate(getattr(mod, "CONTRACTS", [])):
@@ -372,14 +372,20 @@ def report(out, seed):
           "assumptions": sorted(assumptions) + list(getattr(mod, "ASSUMPTIONS", [])),
           "wall_s": round(out["wall_s"], 2), "violations": violations}
     os.makedirs(os.path.join(ROOT, "evidence"), exist_ok=True)
+    partial = bool(out.get("only"))  # --only runs a subset for debugging: no evidence is written from it
     try:
+        if partial:
+            raise StopIteration
         import jsonschema
         schema = json.load(open("/root/.vp/EVIDENCE.schema.json")) if os.path.exists("/root/.vp/EVIDENCE.schema.json") else None
         if schema:
             jsonschema.validate(json.loads(json.dumps(ev, default=str)), schema)
+    except StopIteration:
+        pass
     except Exception as e:
         checker_errors.append("evidence does not validate: %s" % str(e)[:300])
-    json.dump(ev, open(os.path.join(ROOT, "evidence", pid + ".json"), "w"), indent=1, default=str)
+    if not partial:
+        json.dump(ev, open(os.path.join(ROOT, "evidence", pid + ".json"), "w"), indent=1, default=str)
     print("%s tier=%s: obligations=%d discharged=%d (z3 %d, cvc5 %d, closed-eval %d, frame %d) undecided=%d | bounded evaluations=%d distinct=%d | %.1fs" % (
         pid, tier, n_obl, n_dis, by_backend["z3"], by_backend["cvc5"], by_backend["closed-eval"], by_backend["frame"],
         len(undecided), b.evaluations, len(b.nontrivial), out["wall_s"]))
